@@ -718,13 +718,14 @@ class Image:
 
         # ! ---- Extract dimensions and new origin from voxels
 
-        origin_voxel = [0 if sl.start is None else sl.start for sl in voxels]
+        # NOTE: Array slicing (below) restricts the slices to the image; origin and
+        # dimensions have to refer to the voxels which are actually extracted.
+        intervals = [sl.indices(self.num_voxels[i]) for i, sl in enumerate(voxels)]
+
+        origin_voxel = [start for start, _, _ in intervals]
         origin = self.coordinatesystem.coordinate(origin_voxel)
 
-        opposite_voxel = [
-            self.num_voxels[i] if sl.stop is None else sl.stop
-            for i, sl in enumerate(voxels)
-        ]
+        opposite_voxel = [max(start, stop) for start, stop, _ in intervals]
         opposite = self.coordinatesystem.coordinate(opposite_voxel)
 
         cartesian_dimensions = np.absolute(opposite - origin)
